@@ -182,8 +182,9 @@ func (h *RetryHandler) handleConnectionFailure(ctx context.Context, endpoint *do
 
 // removeFailedEndpoint removes the failed endpoint from the available list
 func (h *RetryHandler) removeFailedEndpoint(endpoints []*domain.Endpoint, failedEndpoint *domain.Endpoint) []*domain.Endpoint {
+	// endpoints are identified by their URL (the repository's key): names need not be unique
 	for i := 0; i < len(endpoints); i++ {
-		if endpoints[i].Name == failedEndpoint.Name {
+		if endpoints[i] == failedEndpoint || (endpoints[i].URLString == failedEndpoint.URLString && endpoints[i].Name == failedEndpoint.Name) {
 			// Remove element at index i by copying subsequent elements
 			copy(endpoints[i:], endpoints[i+1:])
 			return endpoints[:len(endpoints)-1]
